@@ -1,3 +1,4 @@
+import DSV.FactsOK.SrcC17
 import DSV.Generated.Facts
 import DSV.LLO.TextSV
 /-!
